@@ -65,7 +65,7 @@ int ed_upk(ed_t r, const ed_t p) {
 		fp_sub(t, t, core_get()->ed_a);
 		fp_inv(t, t);
 		fp_mul(u, u, t);
-		fp_srt(u, u);
+		result = fp_srt(u, u);
 
 		fp_norm(u, u);
 		fp_norm(r->x, p->x);
